@@ -100,7 +100,15 @@ pub fn run(cycles: usize, seed: u64, workdir: &str, tr: &mut Trace) {
     let counts = COUNTS.lock().unwrap().take().unwrap_or([0; 6]);
     let hb0 = c[0][0];
     std::thread::sleep(Duration::from_millis(10));
-    let hb1 = t.counters(2)[0][0];
+    let mut hb1 = t.counters(2)[0][0];
+    // (on a busy machine the thread may just be waiting for a CPU: up to a second before it counts as not running)
+    for _ in 0..100 {
+        if hb1 > hb0 {
+            break;
+        }
+        std::thread::sleep(Duration::from_millis(10));
+        hb1 = t.counters(2)[0][0];
+    }
     let ev: Value = json!({"ev":"flood","cycles":done,"sent":sent.load(Ordering::SeqCst),"delivered":c[0][2],
         "attachOk":counts[0],"waitStop":counts[1],"waitOther":counts[2],"waitErr":counts[3],"reinjected":counts[4],"detach":counts[5],
         "errors": errs, "state": s["state"], "tracer": s["tracer"], "hbAdvancing": hb1 > hb0, "pendingAtEnd": s["sigpnd"]});
